@@ -656,30 +656,74 @@ op_table!(optab_and, And, 0);
 op_table!(optab_or, Or, 0);
 //@harness name=optab_in tier=quick timeout=600 unwind=3 desc="operator type table row `in`: for every pair of operand kinds the application fails exactly when the Jsonnet operator table does not define it" bounds="7x7 operand kinds; numbers: integers -128..=127; strings: <= 2 letters of a,b,c; arrays: <= 1 number; objects/functions: opaque"
 op_table!(optab_in, In, 0);
-//@harness name=optab_lt_l tier=quick timeout=900 unwind=3 desc="operator type table row `<`, arrays allowed on the left only" bounds="7x7 operand kinds except array/array; numbers: integers -128..=127; strings: <= 2 letters of a,b,c; arrays: <= 1 number; objects/functions: opaque"
-op_table!(optab_lt_l, Lt, 1);
-//@harness name=optab_lt_r tier=quick timeout=900 unwind=3 desc="operator type table row `<`, arrays allowed on the right only" bounds="7x7 operand kinds except array/array; numbers: integers -128..=127; strings: <= 2 letters of a,b,c; arrays: <= 1 number; objects/functions: opaque"
-op_table!(optab_lt_r, Lt, 2);
-//@harness name=optab_gt_l tier=quick timeout=900 unwind=3 desc="operator type table row `>`, arrays allowed on the left only" bounds="7x7 operand kinds except array/array; numbers: integers -128..=127; strings: <= 2 letters of a,b,c; arrays: <= 1 number; objects/functions: opaque"
-op_table!(optab_gt_l, Gt, 1);
-//@harness name=optab_gt_r tier=quick timeout=900 unwind=3 desc="operator type table row `>`, arrays allowed on the right only" bounds="7x7 operand kinds except array/array; numbers: integers -128..=127; strings: <= 2 letters of a,b,c; arrays: <= 1 number; objects/functions: opaque"
-op_table!(optab_gt_r, Gt, 2);
-//@harness name=optab_lte_l tier=quick timeout=900 unwind=3 desc="operator type table row `<=`, arrays allowed on the left only" bounds="7x7 operand kinds except array/array; numbers: integers -128..=127; strings: <= 2 letters of a,b,c; arrays: <= 1 number; objects/functions: opaque"
-op_table!(optab_lte_l, Lte, 1);
-//@harness name=optab_lte_r tier=quick timeout=900 unwind=3 desc="operator type table row `<=`, arrays allowed on the right only" bounds="7x7 operand kinds except array/array; numbers: integers -128..=127; strings: <= 2 letters of a,b,c; arrays: <= 1 number; objects/functions: opaque"
-op_table!(optab_lte_r, Lte, 2);
-//@harness name=optab_gte_l tier=quick timeout=900 unwind=3 desc="operator type table row `>=`, arrays allowed on the left only" bounds="7x7 operand kinds except array/array; numbers: integers -128..=127; strings: <= 2 letters of a,b,c; arrays: <= 1 number; objects/functions: opaque"
-op_table!(optab_gte_l, Gte, 1);
-//@harness name=optab_gte_r tier=quick timeout=900 unwind=3 desc="operator type table row `>=`, arrays allowed on the right only" bounds="7x7 operand kinds except array/array; numbers: integers -128..=127; strings: <= 2 letters of a,b,c; arrays: <= 1 number; objects/functions: opaque"
-op_table!(optab_gte_r, Gte, 2);
-//@harness name=optab_eq_l tier=quick timeout=900 unwind=3 desc="operator type table row `==`, arrays allowed on the left only" bounds="7x7 operand kinds except array/array; numbers: integers -128..=127; strings: <= 2 letters of a,b,c; arrays: <= 1 number; objects/functions: opaque"
-op_table!(optab_eq_l, Eq, 1);
-//@harness name=optab_eq_r tier=quick timeout=900 unwind=3 desc="operator type table row `==`, arrays allowed on the right only" bounds="7x7 operand kinds except array/array; numbers: integers -128..=127; strings: <= 2 letters of a,b,c; arrays: <= 1 number; objects/functions: opaque"
-op_table!(optab_eq_r, Eq, 2);
-//@harness name=optab_neq_l tier=quick timeout=900 unwind=3 desc="operator type table row `!=`, arrays allowed on the left only" bounds="7x7 operand kinds except array/array; numbers: integers -128..=127; strings: <= 2 letters of a,b,c; arrays: <= 1 number; objects/functions: opaque"
-op_table!(optab_neq_l, Neq, 1);
-//@harness name=optab_neq_r tier=quick timeout=900 unwind=3 desc="operator type table row `!=`, arrays allowed on the right only" bounds="7x7 operand kinds except array/array; numbers: integers -128..=127; strings: <= 2 letters of a,b,c; arrays: <= 1 number; objects/functions: opaque"
-op_table!(optab_neq_r, Neq, 2);
+/// one (operator, left kind, right kind) cell with *concrete* kinds: the value constructors and the
+/// operator's `match` then fold at symbolic-execution time, which keeps the recursive array arms of
+/// `equals` / `evaluate_compare_op` out of the formula
+fn op_cell(op: BinaryOpType, ka: Kind, kb: Kind) -> (bool, bool) {
+    let a = any_val_of(ka, 1);
+    let b = any_val_of(kb, 2);
+    let want = defined(op, ka, kb);
+    let r = bin(&a, op, &b);
+    #[cfg(verif_playback)]
+    {
+        if let Some(w) = want {
+            if r.is_ok() != w {
+                println!("REPLAY-INPUT: {:?} {:?} {:?}  a={:?} b={:?} defined={:?}", ka, op, kb, a, b, want);
+                println!("REPLAY-JSONNET: std.type({} {} {})", jsonnet_of(&a), sym(op), jsonnet_of(&b));
+                println!("REPLAY-EXPECT: {}", if w { "nocrash" } else { "error" });
+            }
+        }
+    }
+    if let Some(w) = want {
+        assert!(r.is_ok() == w, "C01.op_table an operator application fails exactly when the operator table does not define it for the operand types");
+    }
+    if r.is_ok() {
+        assert!(as_bool(&r).is_some(), "C01.op_result_type comparison and logic operators yield booleans");
+    }
+    (want == Some(true), want == Some(false))
+}
+macro_rules! op_row_cells {
+    ($name:ident, $op:ident, $unwind:literal) => {
+        #[kani::proof]
+        #[kani::unwind($unwind)]
+        pub fn $name() {
+            use Kind::*;
+            let op = BinaryOpType::$op;
+            let mut acc = false;
+            let mut rej = false;
+            // all 48 kind pairs except array/array
+            macro_rules! cell { ($a:ident, $b:ident) => {{ let (x, y) = op_cell(op, $a, $b); acc |= x; rej |= y; }}; }
+            macro_rules! row { ($a:ident) => { cell!($a, Null); cell!($a, Bool); cell!($a, Num); cell!($a, Str); cell!($a, Obj); cell!($a, Func); }; }
+            row!(Null);
+            row!(Bool);
+            row!(Num);
+            row!(Str);
+            row!(Obj);
+            row!(Func);
+            row!(Arr);
+            cell!(Null, Arr);
+            cell!(Bool, Arr);
+            cell!(Num, Arr);
+            cell!(Str, Arr);
+            cell!(Obj, Arr);
+            cell!(Func, Arr);
+            kani::cover!(acc, "a defined cell reached");
+            kani::cover!(rej || matches!(op, BinaryOpType::Eq | BinaryOpType::Neq), "a rejected cell reached");
+        }
+    };
+}
+//@harness name=optab_lt tier=quick timeout=900 unwind=3 desc="operator type table row `<`: every cell" bounds="48 concrete pairs of operand kinds (all but array/array) with symbolic contents; numbers: integers -128..=127; strings: <= 2 letters of a,b,c; arrays: <= 1 number; objects/functions: opaque"
+op_row_cells!(optab_lt, Lt, 3);
+//@harness name=optab_gt tier=quick timeout=900 unwind=3 desc="operator type table row `>`: every cell" bounds="48 concrete pairs of operand kinds (all but array/array) with symbolic contents; numbers: integers -128..=127; strings: <= 2 letters of a,b,c; arrays: <= 1 number; objects/functions: opaque"
+op_row_cells!(optab_gt, Gt, 3);
+//@harness name=optab_lte tier=quick timeout=900 unwind=3 desc="operator type table row `<=`: every cell" bounds="48 concrete pairs of operand kinds (all but array/array) with symbolic contents; numbers: integers -128..=127; strings: <= 2 letters of a,b,c; arrays: <= 1 number; objects/functions: opaque"
+op_row_cells!(optab_lte, Lte, 3);
+//@harness name=optab_gte tier=quick timeout=900 unwind=3 desc="operator type table row `>=`: every cell" bounds="48 concrete pairs of operand kinds (all but array/array) with symbolic contents; numbers: integers -128..=127; strings: <= 2 letters of a,b,c; arrays: <= 1 number; objects/functions: opaque"
+op_row_cells!(optab_gte, Gte, 3);
+//@harness name=optab_eq tier=quick timeout=900 unwind=6 desc="operator type table row `==`: every cell" bounds="48 concrete pairs of operand kinds (all but array/array) with symbolic contents; numbers: integers -128..=127; strings: <= 2 letters of a,b,c; arrays: <= 1 number; objects/functions: opaque"
+op_row_cells!(optab_eq, Eq, 6);
+//@harness name=optab_neq tier=quick timeout=900 unwind=6 desc="operator type table row `!=`: every cell" bounds="48 concrete pairs of operand kinds (all but array/array) with symbolic contents; numbers: integers -128..=127; strings: <= 2 letters of a,b,c; arrays: <= 1 number; objects/functions: opaque"
+op_row_cells!(optab_neq, Neq, 6);
 
 //@harness tier=thorough optional=1 timeout=7200 desc="array/array comparison and equality: element-wise, shorter array first on a common prefix" bounds="arrays of <= 1 small number each, the six comparison operators"
 #[kani::proof]
@@ -723,20 +767,7 @@ pub fn array_compare() {
     kani::cover!(xa.n == 0 && xb.n == 1, "prefix case reached");
 }
 
-//@harness tier=quick timeout=900 desc="== / != / std.equals / std.primitiveEquals over all kinds: different kinds are unequal, same primitive kinds compare by content, != is the negation, primitiveEquals rejects arrays/objects/functions" bounds="7x7 operand kinds, contents as in op_type_table"
-#[kani::proof]
-#[kani::unwind(3)]
-pub fn equality_table() {
-    equality_table_case(1);
-}
-//@harness tier=quick timeout=900 desc="same, arrays allowed on the right only" bounds="7x7 operand kinds except array/array"
-#[kani::proof]
-#[kani::unwind(3)]
-pub fn equality_table_r() {
-    equality_table_case(2);
-}
-fn equality_table_case(side: u8) {
-    let (ka, kb) = if side == 1 { (any_kind(), any_kind_no_arr()) } else { (any_kind_no_arr(), any_kind()) };
+fn equality_cell(ka: Kind, kb: Kind) {
     let a = any_val_of(ka, 1);
     let b = any_val_of(kb, 2);
     let eq = bin(&a, BinaryOpType::Eq, &b);
@@ -747,6 +778,21 @@ fn equality_table_case(side: u8) {
         println!("REPLAY-INPUT: a={:?} b={:?}", a, b);
         println!("REPLAY-JSONNET: std.type({} == {})", jsonnet_of(&a), jsonnet_of(&b));
         println!("REPLAY-EXPECT: {}", if ka == Kind::Func && kb == Kind::Func { "error" } else { "nocrash" });
+        println!("REPLAY-JSONNET: std.primitiveEquals({}, {})", jsonnet_of(&a), jsonnet_of(&b));
+        let prim = match (&a, &b) {
+            (Val::Null, Val::Null) => Some(true),
+            (Val::Bool(x), Val::Bool(y)) => Some(x == y),
+            (Val::Num(x), Val::Num(y)) => Some(x.get() == y.get()),
+            (Val::Str(x), Val::Str(y)) => Some(x.0.as_bytes() == y.0.as_bytes()),
+            _ => None,
+        };
+        if ka != kb {
+            println!("REPLAY-EXPECT: value false");
+        } else if let Some(c) = prim {
+            println!("REPLAY-EXPECT: value {}", c);
+        } else {
+            println!("REPLAY-EXPECT: error");
+        }
     }
     if ka != kb {
         assert!(as_bool(&eq) == Some(false), "C13.equals.kinds values of different types are never equal");
@@ -757,17 +803,16 @@ fn equality_table_case(side: u8) {
             (Val::Bool(x), Val::Bool(y)) => Some(x == y),
             (Val::Num(x), Val::Num(y)) => Some(x.get() == y.get()),
             (Val::Str(x), Val::Str(y)) => Some(x.0.as_bytes() == y.0.as_bytes()),
-            (Val::Arr(x), Val::Arr(y)) => Some(x.n == y.n && (x.n == 0 || matches!((x.e[0], y.e[0]), (Prim::Num(p), Prim::Num(q)) if p == q))),
             _ => None,
         };
         if let Some(c) = content_eq {
-            assert!(as_bool(&eq) == Some(c), "C13.equals.content values of the same primitive/array type compare by content");
+            assert!(as_bool(&eq) == Some(c), "C13.equals.content values of the same primitive type compare by content");
         }
         if ka == Kind::Func {
             assert!(eq.is_err(), "C13.equals.functions comparing two functions is an error");
         }
         match ka {
-            Kind::Arr | Kind::Obj | Kind::Func => assert!(pe.is_err(), "C13.primitiveEquals.rejects primitiveEquals rejects arrays, objects and functions"),
+            Kind::Obj | Kind::Func => assert!(pe.is_err(), "C13.primitiveEquals.rejects primitiveEquals rejects objects and functions"),
             _ => assert!(matches!(pe, Ok(x) if Some(x) == content_eq), "C13.primitiveEquals.content"),
         }
     }
@@ -775,8 +820,30 @@ fn equality_table_case(side: u8) {
         assert!(e != n, "C13.neq != is the negation of ==");
     }
     assert!(eq.is_ok() == ne.is_ok(), "C13.neq.errors == and != fail together");
-    kani::cover!(ka == Kind::Str && kb == Kind::Str && as_bool(&eq) == Some(true), "equal strings reached");
-    kani::cover!((ka == Kind::Arr) != (kb == Kind::Arr), "array against a non-array reached");
+}
+//@harness tier=quick timeout=900 desc="== / != / std.equals / std.primitiveEquals over all kinds: different kinds are unequal, same primitive kinds compare by content, != is the negation, comparing functions is an error, primitiveEquals rejects objects/functions" bounds="48 concrete pairs of operand kinds (all but array/array) with symbolic contents"
+#[kani::proof]
+#[kani::unwind(6)]
+pub fn equality_table() {
+    use Kind::*;
+    macro_rules! row { ($a:ident) => { equality_cell($a, Null); equality_cell($a, Bool); equality_cell($a, Num); equality_cell($a, Str); equality_cell($a, Obj); equality_cell($a, Func); }; }
+    row!(Null);
+    row!(Bool);
+    row!(Num);
+    row!(Str);
+    row!(Obj);
+    row!(Func);
+    row!(Arr);
+    equality_cell(Null, Arr);
+    equality_cell(Bool, Arr);
+    equality_cell(Num, Arr);
+    equality_cell(Str, Arr);
+    equality_cell(Obj, Arr);
+    equality_cell(Func, Arr);
+    kani::cover!(true, "all cells executed");
+    let s1 = any_val_of(Str, 1);
+    let s2 = any_val_of(Str, 2);
+    kani::cover!(as_bool(&bin(&s1, BinaryOpType::Eq, &s2)) == Some(true), "equal strings reached");
 }
 
 //@harness tier=quick timeout=600 desc="unary operators over all kinds: - + ~ need a number, ! needs a boolean, everything else is an error" bounds="4 operators x 7 operand kinds"
@@ -803,3 +870,62 @@ pub fn unary_type_table() {
     kani::cover!(want && which == 3, "! on a boolean reached");
     kani::cover!(!want && k == Kind::Str, "unary on a string reached");
 }
+
+// ================================================================================================
+// && and || : short-circuit evaluation (evaluate_binary_op_special)
+// ================================================================================================
+fn short_circuit_case(op: BinaryOpType, ka: Kind, kb: Kind) {
+    use std::sync::atomic::Ordering::Relaxed;
+    let a = any_val_of(ka, 1);
+    let b = any_val_of(kb, 2);
+    let l0 = EVALS_LEFT.load(Relaxed);
+    let r0 = EVALS_RIGHT.load(Relaxed);
+    let r = evaluate_binary_op_special(Context, &Expr { v: a.clone(), right: false }, op, &Expr { v: b.clone(), right: true });
+    let right_evals = EVALS_RIGHT.load(Relaxed) - r0;
+    assert!(EVALS_LEFT.load(Relaxed) - l0 == 1, "C01.logic.left the left operand is evaluated exactly once");
+    #[cfg(verif_playback)]
+    {
+        println!("REPLAY-INPUT: a={:?} op={:?} b={:?}", a, op, b);
+        println!("REPLAY-JSONNET: std.type({} {} {})", jsonnet_of(&a), sym(op), jsonnet_of(&b));
+        let ok = match (&a, &b) { (Val::Bool(x), _) if (*x && matches!(op, BinaryOpType::Or)) || (!*x && matches!(op, BinaryOpType::And)) => true, (Val::Bool(_), Val::Bool(_)) => true, _ => false };
+        println!("REPLAY-EXPECT: {}", if ok { "nocrash" } else { "error" });
+    }
+    match (&a, op) {
+        (Val::Bool(true), BinaryOpType::Or) => {
+            assert!(as_bool(&r) == Some(true) && right_evals == 0, "C03.logic.short_circuit `true || e` is true and e is not evaluated");
+        }
+        (Val::Bool(false), BinaryOpType::And) => {
+            assert!(as_bool(&r) == Some(false) && right_evals == 0, "C03.logic.short_circuit `false && e` is false and e is not evaluated");
+        }
+        (Val::Bool(x), _) => {
+            assert!(right_evals == 1, "C01.logic.right otherwise the right operand is evaluated once");
+            match &b {
+                Val::Bool(y) => assert!(as_bool(&r) == Some(if matches!(op, BinaryOpType::And) { *x && *y } else { *x || *y }), "C01.logic.value && / || on booleans"),
+                _ => assert!(r.is_err(), "C01.logic.type a non-boolean right operand of && / || is a type error"),
+            }
+        }
+        _ => assert!(r.is_err(), "C01.logic.type a non-boolean left operand of && / || is a type error"),
+    }
+}
+macro_rules! short_circuit {
+    ($name:ident, $op:ident) => {
+        #[kani::proof]
+        #[kani::unwind(6)]
+        pub fn $name() {
+            use Kind::*;
+            let op = BinaryOpType::$op;
+            macro_rules! row { ($a:ident) => { short_circuit_case(op, $a, Null); short_circuit_case(op, $a, Bool); short_circuit_case(op, $a, Num); short_circuit_case(op, $a, Str); short_circuit_case(op, $a, Obj); short_circuit_case(op, $a, Func); }; }
+            row!(Bool);
+            row!(Null);
+            row!(Num);
+            row!(Str);
+            kani::cover!(true, "all cells executed");
+            let t = any_val_of(Bool, 1);
+            kani::cover!(matches!(t, Val::Bool(true)), "true operand reached");
+        }
+    };
+}
+//@harness name=logic_and tier=quick timeout=900 unwind=6 desc="`&&` through evaluate_binary_op_special: `false && e` does not evaluate e; `true && e` needs a boolean e; a non-boolean left operand is an error" bounds="left kind in {bool,null,number,string} x right kind in 6 kinds, symbolic contents"
+short_circuit!(logic_and, And);
+//@harness name=logic_or tier=quick timeout=900 unwind=6 desc="`||` likewise (`true || e` does not evaluate e)" bounds="left kind in {bool,null,number,string} x right kind in 6 kinds, symbolic contents"
+short_circuit!(logic_or, Or);
